@@ -233,4 +233,32 @@ Section P.
     intros Hb. cbv zeta. unfold run. destruct empty_init_inv as [H1 H2].
     apply run_from_inv; assumption.
   Qed.
+
+  (* what fragment decoding relies on: ids are unique and MvexBox.GetTrex(id) finds a trex for every track *)
+  Lemma ids_upto_nodup n : NoDup (ids_upto n).
+  Proof.
+    induction n as [|n IH]; [constructor|].
+    rewrite ids_upto_S.
+    assert (H : ~ In (N.of_nat (S n)) (ids_upto n)).
+    { intros Hin. apply in_ids_upto in Hin. lia. }
+    clear -IH H. induction (ids_upto n) as [|x l IHl]; cbn [app].
+    - constructor; [intros []|constructor].
+    - inversion IH; subst. constructor.
+      + rewrite in_app_iff. intros [Hx|[Hx|[]]]; [contradiction|]. apply H. left. symmetry. exact Hx.
+      + apply IHl; [assumption|]. intros Hin. apply H. right. exact Hin.
+  Qed.
+
+  Lemma trex_lookup ops :
+    N.of_nat (length ops) < 4294967295 ->
+    let s := snd (run avc_parse hevc_parse ops) in
+    NoDup (map tk_id (traks s)) /\ NoDup (trexs s)
+    /\ (forall t, In t (traks s) -> In (tk_id t) (trexs s))
+    /\ length (trexs s) = length (traks s).
+  Proof.
+    intros Hb. cbv zeta. destruct (inv_all ops Hb) as [[Hc [Hi Ht]] _].
+    set (s := snd (run avc_parse hevc_parse ops)) in *.
+    rewrite Hi, Ht. repeat split; try apply ids_upto_nodup.
+    - intros t Hin. rewrite <- Hi. apply in_map. exact Hin.
+    - apply ids_upto_length.
+  Qed.
 End P.
